@@ -345,6 +345,8 @@ def run(ctx):
             ctx.violation("proof-broken:" + str(bad.failed_file), "theorem file %s no longer checks and no failing point was found" % bad.failed_file,
                           {"obligation": bad.failed_file, "log": bad.log[-3000:]}, found_input=False)
     correspondence(ctx, E, H)
+    if ctx.tier == "thorough" and proof_ok:
+        ctx.coqchk(["C06_lagrange", "C06_hermite"] + [x[:-2] for x in extra])
     if ctx.tier == "thorough":
         # exhaustive python-side sweep as an independent cross-check of the Coq decision
         found = search_lagrange(E) + search_hermite(H)
